@@ -74,6 +74,13 @@ size_t merge_existing_groups(econf_file *dest_kf, struct file_entry **fe, econf_
 		break;
 	      }
 	    }
+	    // The group can be opened again later in uf (e.g. [A] [B] [A]) and
+	    // define the key there; then the value is replaced when that run ends.
+	    for (size_t k = i; new_key && k < uf->length; k++) {
+	      if (!strcmp(uf->file_entry[k].group, ef->file_entry[j].group) &&
+		  !strcmp(uf->file_entry[k].key, ef->file_entry[j].key))
+		new_key = false;
+	    }
 	    // If a new key is found for an existing group append it to the group
 	    if (new_key)
 	      (*fe)[i + added_keys++] = cpy_file_entry(dest_kf, ef->file_entry[j]);
